@@ -256,6 +256,73 @@ def several_neuron(ctx, navis, rng):
                     if a != b:
                         ctx.violation('with several volumes the answer for a volume differs from asking that volume alone (mode %s)' % mode, d, dict(volume=k, together=a, alone=b))
                         break
+        # ---- intersection_matrix: one row per volume, under the caller's label (dict key), in the caller's order
+        labels = {'left_%d' % j: v for j, v in enumerate(vols.values())}       # keys differ from the Volumes' own names
+        st, im = guarded(navis.intersection_matrix, navis.NeuronList([sk]), labels, attr='n_nodes')
+        ctx.count('intersection_matrix')
+        d = dict(kind='intersection_matrix', labels=list(labels), volume_names=[v.name for v in labels.values()])
+        if st != 'ok':
+            ctx.violation('intersection_matrix raised', d, im)
+        else:
+            want_counts = [len(single_[1].nodes) if single_[0] == 'ok' else None for single_ in (guarded(navis.in_volume, sk, v, mode='IN', inplace=False) for v in labels.values())]
+            if list(im.index) != list(labels) or [int(v) for v in im.iloc[:, 0].values] != want_counts:
+                ctx.violation('with several volumes the answers are not independent / not under the volume\'s own name', d,
+                              dict(index=[str(i) for i in im.index], values=[int(v) for v in im.iloc[:, 0].values], want=want_counts))
+        # ---- a MeshNeuron pruned by a volume: vertices (with the faces they span) and connectors on their own side
+        import trimesh as _tm
+        rod = _tm.creation.box(extents=(60.0, 4.0, 4.0)).subdivide().subdivide()
+        shift = rng.uniform(-3, 3, size=3)
+        mverts = np.asarray(rod.vertices, dtype=float) + rng.normal(size=rod.vertices.shape) * 1e-3 + shift
+        me = navis.MeshNeuron((mverts, np.asarray(rod.faces)), process=False, name='rod', id=4, units='1 nm')
+        cv = rng.choice(len(mverts), size=6, replace=False)
+        me.connectors = pd.DataFrame({'connector_id': np.arange(6) + 900, 'x': mverts[cv, 0] + 1e-4, 'y': mverts[cv, 1], 'z': mverts[cv, 2], 'type': [0, 1] * 3})
+        lo = np.array([-12.0, -10.0, -10.0]) + rng.uniform(-4, 4, size=3); hi = lo + np.array([24.0, 20.0, 20.0])
+        bm = boxmesh(lo, hi)
+        mvol = navis.Volume(bm.vertices, bm.faces, name='mv')
+        moved = bool(rng.random() < 0.5)
+        if moved:      # the mesh was queried (cached acceleration structures) and then moved: the parts refer to the NEW positions
+            guarded(me.snap, [0.0, 0.0, 0.0]); guarded(lambda: me.trimesh)
+            off = rng.integers(50, 90, size=3).astype(float)
+            me = me + off
+            mverts = mverts + off
+            bm = boxmesh(lo + off, hi + off)
+            mvol = navis.Volume(bm.vertices, bm.faces, name='mv')
+        inside = np.all((mverts > (lo + (off if moved else 0))) & (mverts < (hi + (off if moved else 0))), axis=1)
+        fc = np.asarray(me.faces)
+        key3 = lambda a_: set(map(tuple, np.round(np.asarray(a_, dtype=float), 6).tolist()))
+        kept_union = set()
+        for mode, side in (('IN', inside), ('OUT', ~inside), ('union', None)):
+            if mode == 'union':
+                # the property asks for COMPLEMENTARY vertex sets; vertices that only span faces crossing the surface are in neither part
+                if kept_union != key3(mverts):
+                    ctx.violation('pruning a mesh with mode IN and OUT does not partition its vertices: vertices of faces that cross the surface are in neither part',
+                                  dict(kind='mesh-prune', n_vertices=len(mverts), in_neither_part=len(key3(mverts) - kept_union)), key='C18:mesh-prune-boundary-vertices')
+                continue
+            st, part = guarded(navis.in_volume, me, mvol, mode=mode, inplace=False)
+            if st == 'ok':
+                kept_union |= key3(part.vertices)
+            d = dict(kind='mesh-prune', mode=mode, moved_after_query=moved, n_vertices=len(mverts), n_inside=int(inside.sum()))
+            ctx.case(('mesh-prune', mode, moved, ci), nontrivial=True)
+            ctx.count('prune:mesh:' + mode)
+            if st != 'ok':
+                ctx.violation('in_volume(neuron) raised', d, part)
+                continue
+            keepf = side[fc].all(axis=1)                       # faces lying entirely on this side
+            want_v = key3(mverts[np.unique(fc[keepf])]) if keepf.any() else set()
+            got_v = key3(part.vertices)
+            wrong_side = got_v - key3(mverts[side])
+            if wrong_side:
+                ctx.violation('pruning with mode IN and OUT does not partition the nodes / points', d, dict(vertices_on_the_wrong_side=len(wrong_side)))
+                continue
+            if got_v != want_v:
+                ctx.violation('pruned mesh does not keep exactly the vertices of the faces lying on its side', d, dict(got=len(got_v), want=len(want_v)))
+                continue
+            near = {int(c_): tuple(np.round(mverts[v_], 6)) for c_, v_ in zip(me.connectors.connector_id.values, cv)}
+            want_c = sorted(c_ for c_, q_ in near.items() if q_ in want_v)
+            got_c = sorted(int(c_) for c_ in part.connectors.connector_id.values) if part.connectors is not None else []
+            lost = sorted(c_ for c_, q_ in near.items() if q_ in key3(mverts[side]) and q_ not in want_v)     # their vertex only spans faces that cross the surface
+            if got_c != want_c and sorted(set(got_c) - set(lost)) != want_c:
+                ctx.violation('pruned neurons do not carry exactly their own connectors', d, dict(got=got_c, want=want_c))
         # ---- a Volume edited in place between two queries
         pts = rng.uniform(-25, 25, size=(40, 3))
         lo = rng.integers(-10, 0, size=3).astype(float); hi = lo + rng.integers(6, 14, size=3)
